@@ -1,6 +1,7 @@
 (* Model/Entry.v — the single dispatch table through which the correspondence drivers run the model.
    Every entry takes the flattened integer arguments of a case line and returns the flattened result. *)
 From Coq Require Import ZArith List String.
+From TV Require Import Codec.Flat.
 From TV Require Import Base.Int32 Model.Numeric Model.Decomp Model.Lwe Model.Poly Model.Tlwe Model.KeySwitch.
 Import ListNotations.
 Local Open Scope string_scope.
@@ -21,3 +22,9 @@ Fixpoint lookup (name : string) (t : list (string * (list Z -> list Z))) : optio
 
 Definition dispatch (name : string) (args : list Z) : option (list Z) :=
   match lookup name table with Some f => Some (f args) | None => None end.
+
+(* entries that need the real-number text functions of the platform (supplied by the driver) *)
+Definition dispatch2 (fmt_double : Z -> list Z) (parse_double : list Z -> option Z) (name : string) (args : list Z) : option (list Z) :=
+  if String.eqb name "cexp" then Some (codec_export fmt_double args)
+  else if String.eqb name "cimp" then Some (codec_import parse_double args)
+  else dispatch name args.
